@@ -193,6 +193,19 @@ Theorem C11_auth_update_block :
 Proof. exact update_block_spec. Qed.
 Print Assumptions C11_auth_update_block.
 
+(* version 0 is a version like any other: the model tests the EXISTENCE of the
+   identifier (Some i), never the truth value of its version *)
+Example C11_auth_version_zero :
+  let c : config := [((0x0620, Some 0x07), Some [x00]); ((0x0202, Some 0x82), Some [x45; x46])] in
+  let d : config := [((0x0620, Some 0x04), Some [x00; x00]); ((0x0202, Some 0x82), Some [x47])] in
+  let st := step toy_id toy_prj toy_dev fst snd toy_blob toy_cipher toy_cipher in
+  auths (fst (st (DeriveAuth c false) (mkState [] [] []))) =
+    [(TAG_ECC, ABEcc 0); (TAG_UPDATE, ABUpdate [x45; x46] 0)] /\
+  auths (fst (st (DeriveAuth d true) (mkState [] [] []))) =
+    [(TAG_CUSTKEY, ABCust); (TAG_UPDATE, ABUpdate [x47] 0)].
+Proof. vm_compute. split; reflexivity. Qed.
+Print Assumptions C11_auth_version_zero.
+
 (* all histories: the auth-block dict stays a dict keyed by the blocks' tags ... *)
 Theorem C11_auth_distinct_tags :
   forall (id : Type) (prj_id dev_id : config -> result id) (id_str : id -> str) (id_version : id -> N)
